@@ -254,6 +254,15 @@ theorem unhandled_refusal_is_foreign (s : SiteId) (pyc : Outcome) (h : s.catches
   revert h
   cases s <;> simp [refusalOutcome, SiteId.handlers, SiteId.catches, escape] <;> unfold_sites <;> simp
 
+/- non-vacuity: a handler-needed site with an out-of-domain vector its guard lets through (hypothesis of
+`refusal_table_complete`), a non-divergent and the divergent row (hypotheses of the two refusal theorems), a site with no
+handler (hypothesis of `unhandled_refusal_is_foreign`), a `site` row of the inventory -/
+example : .dsa_assert_as_valid__verify ∈ handlerNeeded
+    ∧ siteStrict .dsa_assert_as_valid__verify (outsideDomain.getD 0 (allTrueBut [])) = false := by decide
+example : (refusalTable.getD 4 ⟨.x_octets__return, "", "", .value⟩).isSpScanNotX = false
+    ∧ (refusalTable.getD 17 ⟨.x_octets__return, "", "", .value⟩).isSpScanNotX = true := by decide
+example : SiteId.catches .dh__pubkey_tweak_mul = false ∧ refusalOutcome .dh__pubkey_tweak_mul .value = .errForeign := by decide
+example : consulting.contains ("btclib.curves.curve._jac_double_mult", "site") = true := by decide +kernel
 example : refusalOutcome .dsa_recover_pub_keys__libsecp256k1_recover_point .value = .value
     ∧ refusalOutcome .commit_nonce__prvkey_tweak_add .errRuntime = .errRuntime
     ∧ refusalOutcome .engine_dsa_verify__libsecp256k1_dsa_verify .false_ = .false_ := by decide
